@@ -43,6 +43,13 @@ def gen_cases(ck):
                       "angle": float(ck.rng.uniform(0, 6.28)), "scale": 1.0, "noise": float(ck.rng.choice([0.03, 0.06, 0.1])), "rhs": "static",
                       "method": None, "allow_negatives": bool(i % 5 == 4), "fit": "dlite", "storage_in_series": True, "shifts": True,
                       "shuffle_cells": True, "p_rev": 0.5, "negative_at": ["last", "first", "last", "any"][i % 4]})
+    for i in range(6 if ck.tier == "quick" else 40):
+        # the same square systems with a velocity right-hand side (the exact-inversion path with b != 0 in the equation rows)
+        cases.append({"type": "tissue", "seed": int(ck.rng.integers(1 << 30)), "tissue": ["random", "jitter"][i % 2], "sites": int(ck.rng.integers(40, 70)),
+                      "flower": True, "min_ridge": 0.003, "mobius": bool(i % 3 == 0), "kmin": 1, "kmax": 4,
+                      "angle": float(ck.rng.uniform(0, 6.28)), "scale": float(10.0 ** ck.rng.uniform(-1, 1)), "noise": float(ck.rng.choice([0.0, 0.005])),
+                      "rhs": "velocity", "dt": float(10.0 ** ck.rng.uniform(-1, 1)), "vel_amp": float(ck.rng.choice([1.0, 3.0])),
+                      "method": None, "allow_negatives": bool(i % 2), "fit": "dlite", "negative_at": "any"})
     return cases
 
 
